@@ -105,16 +105,104 @@ func isDirTestOn(entry *ssa.Parameter) func(ssa.Value) bool {
 	}
 }
 
+// walkContext: fn is a WalkDir callback, or a helper that is only ever called
+// (directly, ≤ 2 levels) from WalkDir callbacks. Returns the callbacks.
+func walkContext(g *ModGraph, fn *ssa.Function, depth int) ([]*ssa.Function, bool) {
+	if isWalkDirFunc(fn) {
+		return []*ssa.Function{fn}, true
+	}
+	if depth >= 2 || fn.Parent() != nil {
+		return nil, false
+	}
+	var out []*ssa.Function
+	n := 0
+	for _, e := range g.In[fn] {
+		if isTestSupport(pkgPathOfFunc(e.From)) {
+			continue
+		}
+		c, ok := e.Site.(ssa.CallInstruction)
+		if !ok || e.Escape || c.Common().StaticCallee() != fn {
+			return nil, false
+		}
+		cbs, ok2 := walkContext(g, e.From, depth+1)
+		if !ok2 {
+			return nil, false
+		}
+		out = append(out, cbs...)
+		n++
+	}
+	return out, n > 0
+}
+
+// entryValue: v is the walked entry (the callback's DirEntry parameter, or a
+// helper parameter every caller binds to it), or its Info().
+func entryValue(g *ModGraph, v ssa.Value) bool {
+	for _, root := range g.paramRoots(v, 0) {
+		p, ok := root.(*ssa.Parameter)
+		if ok && isWalkDirFunc(p.Parent()) {
+			if _, e := walkParams(p.Parent()); e == p {
+				continue
+			}
+		}
+		if ok2 := func() bool {
+			// d.Info() of the entry
+			var entry *ssa.Parameter
+			if ex, isEx := root.(*ssa.Extract); isEx {
+				if c, isC := ex.Tuple.(*ssa.Call); isC && c.Common().IsInvoke() && c.Common().Method.Name() == "Info" {
+					if pp, isP := c.Common().Value.(*ssa.Parameter); isP && isWalkDirFunc(pp.Parent()) {
+						_, entry = walkParams(pp.Parent())
+						return entry == pp
+					}
+				}
+			}
+			if phi, isPhi := root.(*ssa.Phi); isPhi {
+				fn := phi.Parent()
+				if isWalkDirFunc(fn) {
+					_, e := walkParams(fn)
+					return fromEntryInfo(phi, e, map[ssa.Value]bool{})
+				}
+			}
+			return false
+		}(); ok2 {
+			continue
+		}
+		return false
+	}
+	return true
+}
+
+// isDirTestOnEntry: cond is IsDir()/Mode().IsDir() on the walked entry,
+// also when the test sits in a helper that receives the entry as a parameter.
+func isDirTestOnEntry(g *ModGraph) func(ssa.Value) bool {
+	return func(v ssa.Value) bool {
+		c, ok := v.(*ssa.Call)
+		if !ok {
+			return false
+		}
+		cc := c.Common()
+		if cc.IsInvoke() && cc.Method.Name() == "IsDir" {
+			return entryValue(g, cc.Value)
+		}
+		if calleeName(c) == "(io/fs.FileMode).IsDir" && len(cc.Args) == 1 {
+			if m, ok := cc.Args[0].(*ssa.Call); ok && m.Common().IsInvoke() && (m.Common().Method.Name() == "Mode" || m.Common().Method.Name() == "Type") {
+				return entryValue(g, m.Common().Value)
+			}
+		}
+		return false
+	}
+}
+
 // checkSkipDir emits one obligation per `return SkipDir` in every
-// WalkDirFunc-shaped function of the given packages.
+// WalkDirFunc-shaped function of the given packages (and in helpers that are
+// only called from such callbacks).
 func checkSkipDir(p *Prog, r *Report, rule string, pkgs ...string) {
+	g := p.ModGraph()
 	for _, pk := range pkgs {
 		for _, fn := range p.FuncsInPkg(pk) {
-			if !isWalkDirFunc(fn) {
+			if _, inWalk := walkContext(g, fn, 0); !inWalk {
 				continue
 			}
 			r.FuncsSeen[funcKey(fn)] = true
-			_, entry := walkParams(fn)
 			for _, b := range fn.Blocks {
 				ret, ok := lastInstr(b).(*ssa.Return)
 				if !ok || len(ret.Results) != 1 {
@@ -133,7 +221,7 @@ func checkSkipDir(p *Prog, r *Report, rule string, pkgs ...string) {
 				if !isSkipDirLoad(res) {
 					continue
 				}
-				ok2 := entry != nil && HasFact(ret, true, isDirTestOn(entry))
+				ok2 := HasFact(ret, true, isDirTestOnEntry(g))
 				r.Cond(ok2, rule, funcKey(fn)+" return SkipDir", p.Pos(ret.Pos()),
 					"`return SkipDir` not dominated by a directory test on the walked entry: for a non-directory WalkDir then skips all remaining siblings")
 			}
@@ -219,24 +307,66 @@ func checkC09(p *Prog, r *Report) {
 		fn := s.Fn
 		base := funcKey(fn) + " → " + s.Label
 		pos := p.Pos(instrPos(s.Instr))
-		// (a) in a WalkDir callback, removing the callback's own path, after a negative lookup of that path
-		if !isWalkDirFunc(fn) {
+		// (a) in a WalkDir callback (or a helper only such callbacks call), removing the
+		// callback's own path, after a negative lookup of that path
+		cbs, inWalk := walkContext(g, fn, 0)
+		if !inWalk {
 			r.Bad("C09/REMOVE-GATES", base+" [in-walk-callback]", pos, "RemoveAll outside a WalkDir callback")
 			continue
 		}
-		pathP, _ := walkParams(fn)
 		args := s.Instr.Common().Args
 		rmArg := args[len(args)-1]
-		r.Cond(rmArg == pathP, "C09/REMOVE-GATES", base+" [removes-walked-path]", pos, "argument of RemoveAll is not the callback's path parameter")
+		isWalkedPath := func(v ssa.Value) bool {
+			for _, root := range g.paramRoots(v, 0) {
+				pp, ok := root.(*ssa.Parameter)
+				if !ok || !isWalkDirFunc(pp.Parent()) {
+					return false
+				}
+				if wp, _ := walkParams(pp.Parent()); wp != pp {
+					return false
+				}
+			}
+			return true
+		}
+		r.Cond(isWalkedPath(rmArg), "C09/REMOVE-GATES", base+" [removes-walked-path]", pos, "argument of RemoveAll is not the callback's path parameter")
+		// negative lookup of the walked path: findInFileList(list, path)==false, directly or
+		// through a single-return predicate helper, locally or at every call site
 		lookup := func(v ssa.Value) bool {
 			c, ok := v.(*ssa.Call)
 			if !ok || c.Common().StaticCallee() != find {
 				return false
 			}
 			a := c.Common().Args
-			return len(a) == 2 && a[1] == pathP
+			if len(a) != 2 {
+				return false
+			}
+			if isWalkedPath(a[1]) {
+				return true
+			}
+			// inside a predicate helper: its parameter; accept when the helper is
+			// called with the walked path (checked on the expanded fact's source)
+			if pp, isP := a[1].(*ssa.Parameter); isP {
+				for _, e := range g.In[pp.Parent()] {
+					cs, isC := e.Site.(ssa.CallInstruction)
+					if !isC {
+						return false
+					}
+					idx := -1
+					for i, q := range pp.Parent().Params {
+						if q == pp {
+							idx = i
+						}
+					}
+					if idx < 0 || !isWalkedPath(cs.Common().Args[idx]) {
+						return false
+					}
+				}
+				return true
+			}
+			return false
 		}
 		r.Cond(HasFact(s.Instr, false, lookup), "C09/REMOVE-GATES", base+" [not-in-list]", pos, "not dominated by findInFileList(list, path)==false for the walked path")
+		_ = cbs
 		var badIO, badDel string
 		for _, e := range entries {
 			if ch, ok := needIO[e][s.Instr]; ok && badIO == "" {
